@@ -406,7 +406,7 @@ func c11Run(c *Ctx) {
 func init() {
 	register(&CheckDef{
 		ID: "C11", Build: "instr", Run: c11Run, RunCase: c11RunCase,
-		Rule: "states = every spelling reachable from a canonical root location (file below a real scratch directory, http, https) by <= k rewrites: ./ or x/../ before any segment, a doubled slash, bare path / file:/ / file:/// forms, upper-case scheme, trailing fragment, trailing query (file), relative spelling against four working directories (the worker really changes directory); each used as RelativeBase / base path of ExpandSpec (with and without SkipSchemas), ExpandSchemaWithBasePath, ResolveRefWithBase, ExpandParameter, ExpandResponse on 5 multi-document graphs; oracle = same error, same output and same set of requested URLs as the canonical spelling, every requested URL absolute, clean and fragment-free, normalisation idempotent",
+		Rule:        "states = every spelling reachable from a canonical root location (file below a real scratch directory, http, https) by <= k rewrites: ./ or x/../ before any segment, a doubled slash, bare path / file:/ / file:/// forms, upper-case scheme, trailing fragment, trailing query (file), relative spelling against four working directories (the worker really changes directory); each used as RelativeBase / base path of ExpandSpec (with and without SkipSchemas), ExpandSchemaWithBasePath, ResolveRefWithBase, ExpandParameter, ExpandResponse on 5 multi-document graphs; oracle = same error, same output and same set of requested URLs as the canonical spelling, every requested URL absolute, clean and fragment-free, normalisation idempotent",
 		Assumptions: []string{"a doubled *leading* slash, host case and default ports are not among the rewrites the statement lists", "map iteration order is fixed (sorted) so that outputs of cyclic graphs are comparable"},
 		MinOutcomes: 1,
 	})
